@@ -279,7 +279,7 @@ theorem sum_map_fst_map (l : List Nat) : sum ((l.map (fun n => (n, true))).map (
   | cons a t ih => simp [sum] at ih ⊢; exact ih
 
 theorem Good.errMat {F : Facts13} (hF : F.Good) : ∀ k, errMaterialised F k = true := by
-  obtain ⟨_, _, _, _, _, _, _, _, _, _, _, h12, h13⟩ := id hF
+  obtain ⟨_, _, _, _, _, _, _, _, _, _, _, h12, h13, _⟩ := id hF
   intro k; cases k
   · rfl
   · exact h12
@@ -337,18 +337,24 @@ theorem withAux_wf (req : Req) (runs : Bool) (r : Result) (h : r.WF) : (withAux 
     obtain ⟨⟨h1, h2, h3, _⟩, h5⟩ := h
     exact ⟨⟨h1, h2, h3, by simp⟩, h5⟩
 
+theorem respond_wf (F : Facts13) (cfg : Cfg) (req : Req) (r : Resp) (hF : F.Good) :
+    (respond F cfg req r).WF := by
+  obtain ⟨h1, _, h3, _, _, _, h7, h8, h9, h10, _, _, _, h14⟩ := id hF
+  have hm := Good.errMat hF
+  have hl : ∀ fc, (lateError F req r fc).WF := by
+    intro fc; unfold lateError; rw [h10]; exact withAux_wf _ _ _ (errorOut_wf _ _ _ _ h1 h8 hm)
+  unfold respond
+  split
+  · exact hl _
+  · split
+    · simp only [joinGuarded, h14, if_true]; exact hl _
+    · rw [h9]; exact withAux_wf _ _ _ (withReturnListener_wf _ _ _ _ h1 h3 h7)
+
 theorem afterUser_wf (F : Facts13) (cfg : Cfg) (req : Req) (r : Resp) (hF : F.Good) :
     (afterUser F cfg req r).WF := by
-  obtain ⟨h1, _, h3, _, h5, _, h7, h8, h9, h10, _, _, _⟩ := id hF
+  obtain ⟨h1, _, _, _, h5, _, _, h8, _, h10, _, _, _⟩ := id hF
   have hm := Good.errMat hF
-  have hc : (if r.serializeFails then
-        withAux req req.auxOnErrors F.auxGuardError
-          (errorOut F req (if F.lateErrorKeepsOkStatus then some (r.preset.getD F.okStatus) else r.preset) r.serFailClass)
-      else withAux req true F.auxGuardOk (withReturnListener F cfg req r)).WF := by
-    rw [h9, h10]
-    split
-    · exact withAux_wf _ _ _ (errorOut_wf _ _ _ _ h1 h8 hm)
-    · exact withAux_wf _ _ _ (withReturnListener_wf _ _ _ _ h1 h3 h7)
+  have hc := respond_wf F cfg req r hF
   unfold afterUser
   simp only [h5, if_true]
   split
@@ -1140,13 +1146,23 @@ theorem process_unchunked_cl (F : Facts13) (cfg : Cfg) (req : Req) (stream : Lis
     obtain ⟨o', h1, h2, _⟩ := withAux_out h
     obtain ⟨n, hn⟩ := hs _ _ h1
     exact ⟨n, by rw [h2, hn]⟩
+  have hr : ∀ r o, respond F cfg req r = .out o → ∃ n, o.cl = some n := by
+    intro r o h
+    unfold respond lateError at h
+    split at h
+    · exact hea _ _ _ _ _ h
+    · split at h
+      · split at h
+        · exact hea _ _ _ _ _ h
+        · cases h
+      · exact hsa _ _ _ _ h
   have ha : ∀ r o, afterUser F cfg req r = .out o → ∃ n, o.cl = some n := by
     intro r o h
     unfold afterUser at h
     simp only [h5, if_true] at h
     split at h
     all_goals first
-      | (split at h <;> first | exact hea _ _ _ _ _ h | exact hsa _ _ _ _ h)
+      | exact hr _ _ h
       | exact hea _ _ _ _ _ h
   have hi : ∀ o, (intendedResult F cfg req).2 = .out o → ∃ n, o.cl = some n := by
     intro o h
@@ -1250,19 +1266,24 @@ theorem process_status (F : Facts13) (cfg : Cfg) (req : Req) (stream : List Nat)
               rw [ho'] at h
               simp only [Result.out.injEq] at h; subst h
               exact hs0 r o' hpr ho'
-      have hc : ∀ o, (if r.serializeFails then
-            withAux req req.auxOnErrors F.auxGuardError
-              (errorOut F req (if F.lateErrorKeepsOkStatus then some (r.preset.getD F.okStatus) else r.preset) r.serFailClass)
-          else withAux req true F.auxGuardOk (withReturnListener F cfg req r)) = .out o →
-          StatusSource F req o.status := by
+      have hle : ∀ fc o, lateError F req r fc = .out o → StatusSource F req o.status := by
+        intro fc o h
+        unfold lateError at h
+        refine hAux _ _ _ _ h (fun o' h' => ?_)
+        simp only [errorOut, Result.out.injEq] at h'; subst h'
+        cases hk : F.lateErrorKeepsOkStatus
+        · simp only [Bool.false_eq_true, if_false, Option.getD_none]; exact hfs _
+        · simp only [if_true, Option.getD_some]; exact hp _ _ hpr hok
+      have hc : ∀ o, respond F cfg req r = .out o → StatusSource F req o.status := by
         intro o h
+        unfold respond at h
         split at h
-        · refine hAux _ _ _ _ h (fun o' h' => ?_)
-          simp only [errorOut, Result.out.injEq] at h'; subst h'
-          cases hk : F.lateErrorKeepsOkStatus
-          · simp only [Bool.false_eq_true, if_false]; exact hp _ _ hpr (hfs _)
-          · simp only [if_true, Option.getD_some]; exact hp _ _ hpr hok
-        · exact hAux _ _ _ _ h (fun o' h' => hs _ h')
+        · exact hle _ _ h
+        · split at h
+          · split at h
+            · exact hle _ _ h
+            · cases h
+          · exact hAux _ _ _ _ h (fun o' h' => hs _ h')
       unfold afterUser at h
       simp only at h
       split at h
